@@ -26,6 +26,14 @@ def F(x):
     return "F%016x" % struct.unpack("<Q", struct.pack("<d", float(x)))[0]
 
 
+def FS(x):
+    """strict float token for *outputs* of the implementation: anything that is not exactly a
+    float (an int, a str, None, …) gets a token no model output can match"""
+    if type(x) is float:
+        return F(x)
+    return "X%s:%s" % (type(x).__name__, "".join(ch for ch in repr(x)[:40] if not ch.isspace()))
+
+
 def unF(tok):
     return struct.unpack("<d", struct.pack("<Q", int(tok[1:], 16)))[0]
 
@@ -44,6 +52,8 @@ def B(b):
 
 
 def S(s):
+    if type(s) is not str:
+        return "X%s:%s" % (type(s).__name__, "".join(ch for ch in repr(s)[:40] if not ch.isspace()))
     return "S" + ",".join(str(ord(c)) for c in s)
 
 
